@@ -36,6 +36,19 @@
       - `oppushpc` / `opcallpc` capture and use a frame POSITION; positions differ in the two runs, and
         a closure called after its frame's slot has been reused tells them apart:
         `stale_closure_tells_the_runs_apart` — hence the hypothesis `closureFree`.
+  * What a proof of the remaining cases needs (worked out, not built): (i) the LAYOUT invariant of
+    `env.values`, best stated positionally — for all scope blocks at or below `max(index, limit)`,
+    lower blocks own lower variable ranges and every range ends at or below `env.offset` (each fork
+    records the same for the prefix it protects) — which gives that a write through `env.index` never
+    touches another live frame's slots; (ii) def-before-use of variable slots (a fresh frame's slots
+    hold whatever the previous owner left; the two runs differ there as soon as closures or
+    `callrec` are involved); (iii) for closures: every closure in an argument slot of a frame
+    captured that frame's `saveindex` (the caller), which is why it is live whenever it is called —
+    this needs the argument-passing protocol (pushpc … call; scope; store …) as a static discipline;
+    (iv) for `callrec`: the frame it pops must be a frame of the SAME scope (else `opscope` links
+    the new frame's `outerindex` to the slot it overwrites), i.e. the invariant "the top frame
+    belongs to the function whose code is running", and a relation between the two variable arrays
+    up to the address map of corresponding frames.
   * As in Props/C04Sim.lean the whole-run theorems are stated under the call-indexed oracle
     (`historyC`: the recorded native answers consumed in order) — the original makes more turns
     (call, scope, ret of dropped frames, jumps) but none of them consumes an answer — with the
@@ -241,12 +254,20 @@ theorem proper_of_tags {hs : List Outcome} (h : (tags hs).all (fun t => t ≤ 2)
   have := h o ho
   cases o <;> simp [Outcome.tag] at this <;> rfl
 
--- … so the theorem applies:
-example (c' : Array Instr) (h : optTailV codeRec = some c') (hnc : noCallrec c' = true) :
+/-- the pass output contains no `callrec`, read off the evaluated scan -/
+theorem noCallrec_of_map {c c' : Array Instr} (h : optTailV c = some c')
+    (hm : (optTailV c).map noCallrec = some true) : noCallrec c' = true := by
+  rw [h] at hm
+  simpa using hm
+
+-- … so the theorem applies to the output of the pass:
+example (c' : Array Instr) (h : optTailV codeRec = some c') :
     historyC c' noExt 300 6 (initJ (.arr [.arr [num 1], num 2]) []) =
       historyC codeRec noExt 300 6 (initJ (.arr [.arr [num 1], num 2]) []) :=
-  optimizeTailRec_preserves_outputs_partial codeRec c' (by decide +kernel) h hnc noExt 300 6 _ []
-    (proper_of_tags (by decide +kernel))
+  optimizeTailRec_preserves_outputs_partial codeRec c' (by decide +kernel) h
+    (noCallrec_of_map h (by decide +kernel)) noExt 300 6 _ [] (proper_of_tags (by decide +kernel))
+-- … and the pass does produce an output:
+example : (optTailV codeRec).isSome = true ∧ (optTailV codeIf).isSome = true := by decide +kernel
 
 /-- the recorded answers for `{"a":{"a":null}} | f` with `codeIf`: `.a` three times -/
 def extIf : Nat → ExtRec := fun k =>
@@ -256,11 +277,11 @@ def extIf : Nat → ExtRec := fun k =>
   else {}
 example : tags (historyC codeIf extIf 300 3 (initJ (.obj [([97], .obj [([97], .null)])]) [])) = [0, 2, 2] := by
   decide +kernel
-example (c' : Array Instr) (h : optTailV codeIf = some c') (hnc : noCallrec c' = true) :
+example (c' : Array Instr) (h : optTailV codeIf = some c') :
     historyC c' extIf 300 3 (initJ (.obj [([97], .obj [([97], .null)])]) []) =
       historyC codeIf extIf 300 3 (initJ (.obj [([97], .obj [([97], .null)])]) []) :=
-  optimizeTailRec_preserves_outputs_partial codeIf c' (by decide +kernel) h hnc extIf 300 3 _ []
-    (proper_of_tags (by decide +kernel))
+  optimizeTailRec_preserves_outputs_partial codeIf c' (by decide +kernel) h
+    (noCallrec_of_map h (by decide +kernel)) extIf 300 3 _ [] (proper_of_tags (by decide +kernel))
 
 /-- The two runs are NOT in the same state: after the third value of `[[1], 2] | recurse` the original
     run has four frames on its scope stack, the optimised run two. -/
